@@ -67,6 +67,8 @@ func DecodeCases(text string) []*Case {
 			s.Plain = c.rep()
 			s.Cond = c.rep()
 			cur.Script = append(cur.Script, s)
+		case "FAULT":
+			cur.Faults = append(cur.Faults, FaultSpec{N: int(c.int()), Kind: c.next()})
 		case "END":
 			out = append(out, cur)
 		}
